@@ -28,6 +28,8 @@ type PEnv struct {
 	To    string `json:"to"`             // destination name as written by the sender
 	Spoof int    `json:"spoof,omitempty"` // 1: source differs from the sender's name, 2: no header
 	Next  string `json:"next,omitempty"`  // proxy_next entry (route), if any
+	EmptyNext bool `json:"empty_next,omitempty"` // proxy_next present but empty (what a previous hop leaves behind after consuming a one-element route)
+	Rec   int    `json:"rec,omitempty"`        // entries the sender put into proxy_record itself (an envelope that claims to have travelled)
 	Shape int    `json:"shape,omitempty"` // 0 body, 1 body+trailer+status, 2 body+reset (what the proxy forwards must not depend on it)
 }
 
@@ -127,6 +129,12 @@ func genProxyRaw(hostile bool) func(g *rand.Rand, tier string) any {
 			}
 			if g.IntN(4) == 0 {
 				ev.Shape = 1 + g.IntN(2)
+			}
+			if ev.Next == "" && g.IntN(8) == 0 {
+				ev.EmptyNext = true
+			}
+			if g.IntN(8) == 0 || (ev.Spoof == 1 && g.IntN(2) == 0) {
+				ev.Rec = 1 + g.IntN(2)
 			}
 			p.Envs = append(p.Envs, ev)
 		}
@@ -492,6 +500,15 @@ func execProxyRaw(e *Env, pp any) {
 					}
 					if ev.Next != "" {
 						r.Header.ProxyNext = []string{ev.Next}
+					} else if ev.EmptyNext {
+						r.Header.ProxyNext = []string{}
+						e.Note("shape.empty-proxy-next")
+					}
+					for k := 0; k < ev.Rec; k++ {
+						r.Header.ProxyRecord = append(r.Header.ProxyRecord, fmt.Sprintf("hop%d", k))
+					}
+					if ev.Rec > 0 {
+						e.Note("shape.proxy-record-prefilled")
 					}
 				} else {
 					e.Note("fault.peer.noheader")
@@ -645,8 +662,13 @@ func execProxyRaw(e *Env, pp any) {
 					np++
 				}
 			}
-			if np != 1 || len(h.GetProxyRecord()) != 1 {
-				e.Violate(prop, "proxy-record", "proxy", "envelope %d arrived with proxy_record %v, want exactly [%s]", se.idx, h.GetProxyRecord(), proxyName)
+			wantRec := 1
+			if se.idx < len(p.Envs) {
+				wantRec += p.Envs[se.idx].Rec
+			}
+			rec := h.GetProxyRecord()
+			if np != 1 || len(rec) != wantRec || rec[len(rec)-1] != proxyName {
+				e.Violate(prop, "proxy-record", "proxy", "envelope %d arrived with proxy_record %v, want the sender's %d entries followed by exactly one %s", se.idx, rec, wantRec-1, proxyName)
 			}
 			if len(h.GetProxyNext()) != 0 {
 				e.Violate(prop, "proxy-next", "proxy", "envelope %d arrived with proxy_next %v not consumed", se.idx, h.GetProxyNext())
